@@ -36,6 +36,7 @@ fn vtype_of(s: &FnSpec) -> u8 {
         "p4" => 4,
         "p6" => 5,
         "p5" => 7,
+        "p7" => 8,
         _ => 1,
     }
 }
